@@ -138,10 +138,7 @@ func exprD(v ssa.Value, d int, onpath map[ssa.Value]bool) string {
 		}
 		return x.Value.ExactString()
 	case *ssa.Parameter:
-		if s, ok := exprParamSubst[x]; ok {
-			return s
-		}
-		return x.Name()
+		return paramName(x)
 	case *ssa.FreeVar:
 		return "free:" + x.Name()
 	case *ssa.Global:
@@ -155,10 +152,7 @@ func exprD(v ssa.Value, d int, onpath map[ssa.Value]bool) string {
 		if fn := x.Parent(); fn != nil {
 			for _, p := range fn.Params {
 				if p.Name() == x.Comment {
-					if s, ok := exprParamSubst[p]; ok {
-						return s
-					}
-					return x.Comment
+					return paramName(p)
 				}
 			}
 		}
@@ -167,7 +161,7 @@ func exprD(v ssa.Value, d int, onpath map[ssa.Value]bool) string {
 		case "", "complit", "varargs", "slicelit", "new", "makeslice", "makemap", "typeassert,ok", "arraylit":
 		default:
 			if !strings.ContainsAny(x.Comment, " ,()") {
-				return x.Comment
+				return localName(x.Parent(), x.Comment)
 			}
 		}
 		return "alloc(" + typeStr(x.Type()) + ")"
@@ -307,7 +301,7 @@ func Deps(v ssa.Value) map[string]bool {
 				visit(a, d+1)
 				break
 			}
-			out["param:"+y.Name()] = true
+			out["param:"+paramName(y)] = true
 		case *ssa.FreeVar:
 			out["free:"+y.Name()] = true
 		case *ssa.Global:
